@@ -4,7 +4,7 @@
 (* recorded input and compares with the recorded output):                       *)
 (*   Code         the code cell the library attaches is the published one       *)
 (*   Addr         an address (or state-init) an API yielded = Hash(StateInit)   *)
-(*   Unsupported  a version without wallet: every API refuses                   *)
+(*   Unsupported  a version without wallet: no address exists (observation only) *)
 (*   Seed         DefaultWalletFromSeed = the V4R2 wallet of the derived key    *)
 (*   Distinct     over all recorded addresses: different inputs, different      *)
 (*                addresses                                                     *)
@@ -44,7 +44,8 @@ JudgeAddr(e) ==
                                 /\ Topological(T) /\ Len(e.roots) = 1
                                 /\ ReprHash(InfoTable(T)[e.roots[1] + 1]) = want
 
-JudgeUnsupported(e) == e.ver \notin Versions /\ e.err # ""
+\* a version without a wallet has no address: the statement says nothing. An API that does not refuse is an observation.
+JudgeUnsupported(e) == e.ver \notin Versions /\ (e.err = "" => Note("obs", "unsupported-version-not-refused"))
 
 \* -------------------------------------------------------------------- Seed
 \* the key pair is consistent (RFC 8032 key generation) and the default wallet is V4R2, workchain 0, default sub-wallet
@@ -58,7 +59,7 @@ JudgeSeed(e) ==
 \* {"k":"Distinct","rows":[{ver,pub,wc_set,wc,sub,has_net,net,awc,addr}]}: the parameters a version's initial
 \* state holds -> the address; different parameters must give different addresses
 EffKey(r) == <<r.ver, r.pub, WcOf(r),
-               IF HasSub(r.ver) THEN EffSub(r.ver, WcOf(r), r.sub) ELSE <<>>,
+               IF TakesSub(r.ver) THEN EffSub(r.ver, WcOf(r), r.sub) ELSE <<>>,
                IF HasNet(r.ver) THEN EffNet(r.has_net, r.net) ELSE <<>>>>
 JudgeDistinct(e) ==
   LET rows == {e.rows[i] : i \in 1..Len(e.rows)}
